@@ -398,6 +398,16 @@ def case_key(case):
     return hashlib.md5(json.dumps(case_public(case), sort_keys=True).encode()).hexdigest()[:12]
 
 
+def pbatch(exe, lines, timeout=1800):
+    """common.batch over interleaved chunks in parallel (long scripts are spread evenly)"""
+    n = max(1, min(len(lines) // 50, common.NCPU * 3))
+    parts = trace.pmap(lambda j: common.batch(exe, lines[j::n], timeout=timeout), list(range(n)))
+    out = [None] * len(lines)
+    for j, part in enumerate(parts):
+        out[j::n] = part
+    return out
+
+
 # ------------------------------------------------------------------ the check
 
 def run(chk):
@@ -442,24 +452,14 @@ def run(chk):
         scripts.extend(heap_scripts_exhaustive(nk, L))
         chk.count("heap:exhaustive keys=%d len=%d" % (nk, L), len(scripts) - n0)
     n0 = len(scripts)
-    scripts.extend(heap_scripts_random(rng, chk.budget(300, 3000), chk.budget(300, 1500)))
+    scripts.extend(heap_scripts_random(rng, chk.budget(300, 3000), chk.budget(300, 1000)))
     chk.count("heap:random-long", len(scripts) - n0)
     for f in sorted(glob.glob(os.path.join(common.VERIF, "corpus", "C03", "heap-*.json"))):
         scripts.insert(0, [tuple(op) for op in json.load(open(f))["ops"]])
         chk.count("heap:corpus")
     lines = [heap_script(ops) for ops in scripts]
-    CH = 20000
-    impl = []
-    modl = []
-    chunks = [lines[i:i + CH] for i in range(0, len(lines), CH)]
-    impl_chunks = trace.pmap(lambda c: common.batch(hx, c, timeout=1800), chunks)
-    for c in impl_chunks:
-        impl.extend(c)
-    if oracle:
-        for c in trace.pmap(lambda c: common.batch(oracle, c, timeout=1800), chunks):
-            modl.extend(c)
-    else:
-        modl = [None] * len(lines)
+    impl = pbatch(hx, lines)
+    modl = pbatch(oracle, lines) if oracle else [None] * len(lines)
     nh_viol = 0
     for ops, ln, i, m in zip(scripts, lines, impl, modl):
         chk.case(("H", ln))
@@ -506,7 +506,7 @@ def run(chk):
         mlines.append(model_line(c, "D"))
         if c["kind"] == "emu":
             mlines.append(model_line(c, "E"))
-    mans = common.batch(oracle, mlines, timeout=1800) if oracle else [None] * len(mlines)
+    mans = pbatch(oracle, mlines) if oracle else [None] * len(mlines)
     mi = 0
     nviol = 0
     dump_finding_reported = False
